@@ -427,6 +427,9 @@ func checkMain(args []string) int {
 	// thorough tier: the must-fail corpus of this property (seeded changes and hand-written mutants kept under
 	// seeded/ and selftest/mutants/) is replayed against scratch copies of the current tree; the outcome is evidence about
 	// the check's sensitivity and never changes the verdict on the tree itself
+	if len(w.renameNotes) > 0 {
+		ev.Coverage["contracts_read_with_renamed_variables"] = w.renameNotes
+	}
 	if *tier == "thorough" && os.Getenv("VERIF_NO_CORPUS") == "" {
 		ev.Coverage["must_fail_corpus"] = runCorpus(prop)
 	}
@@ -579,7 +582,7 @@ func runCorpus(prop string) []map[string]string {
 		return out
 	}
 	var dirs []string
-	for _, root := range []string{"seeded", filepath.Join("selftest", "mutants")} {
+	for _, root := range []string{"seeded", filepath.Join("selftest", "mutants"), filepath.Join("selftest", "benign")} {
 		es, _ := os.ReadDir(filepath.Join(verifDir, root))
 		for _, e := range es {
 			if e.IsDir() {
@@ -648,6 +651,8 @@ func runCorpus(prop string) []map[string]string {
 						break
 					}
 				}
+			} else if rec["expected"] == "pass" {
+				rec["outcome"] = "pass"
 			} else {
 				rec["outcome"] = "missed"
 			}
